@@ -107,7 +107,7 @@ structure VisitPost (c : DrawCfg) (d : Option Style) (s : Scr) (t : ATerm) (x y 
   wd_eq : wd = (s.cells.getContent x y).2.2.2 ∨ (x + wd ≥ s.w ∧ x + (s.cells.getContent x y).2.2.2 ≥ s.w)
   gc_same : ∀ i j, s'.cells.getContent i j = s.cells.getContent i j
   lock_same : ∀ i j, (s'.cells.cells i j).lock = (s.cells.cells i j).lock
-  other_same : ∀ i j, (j ≠ y ∨ i < x ∨ i > x + 1) → s'.cells.cells i j = s.cells.cells i j
+  other_same : ∀ i j, (j ≠ y ∨ i < x ∨ i ≥ x + wd) → s'.cells.cells i j = s.cells.cells i j
   done : (s.cells.cells x y).lock = false →
     (s'.cells.cells x y).lastMain ≠ 0 ∧ (s'.cells.cells x y).last = (s'.cells.cells x y).content
   w_same : s'.w = s.w
